@@ -29,7 +29,11 @@ func (c10) Cases(c *Ctx) int { return c.Pick(1500, 30000) }
 func sprinkle(dt *drv.T, body []*Stmt, where string, depth int) []*Stmt {
 	var out []*Stmt
 	add := func() {
-		switch pick(dt, "sprinkle", "none", "none", "cleanup", "cleanup", "ctx", "gocx") {
+		switch pick(dt, "sprinkle", "none", "none", "cleanup", "cleanup", "ctx", "gocx", "nilcleanup") {
+		case "nilcleanup":
+			if chance(dt, "nilcl", 40) {
+				out = append(out, &Stmt{Op: "cleanup", Kind: "nil"})
+			}
 		case "cleanup":
 			out = append(out, genC10Cleanup(dt, 2))
 		case "ctx":
